@@ -111,9 +111,9 @@ func (s *dockerService) Handle(ctx context.Context, conn net.Conn) error {
 
 	defer conn.Close()
 
-	for {
+	br := bufio.NewReader(conn)
 
-		br := bufio.NewReader(conn)
+	for {
 
 		req, err := http.ReadRequest(br)
 		if err == io.EOF {
